@@ -90,6 +90,7 @@ type extOp struct {
 	Pred    int
 	Aliases int // 0, 1 or 2 aliases
 	Dup     bool // register under the shared name "x/dup" instead of a fresh one
+	AliasBuiltin bool // the first alias is "text/html", a name a built-in format already carries
 	Same    bool // register under the MIME string of the attachment point (new extension only, like .aaf under application/octet-stream's namesake)
 }
 
@@ -176,6 +177,9 @@ func (t *treeModel) apply(op extOp) {
 	backing := make([]string, op.Aliases+2)
 	for a := 0; a < op.Aliases; a++ {
 		backing[a] = fmt.Sprintf("x/e%d-alias%d", k+1, a+1)
+	}
+	if op.AliasBuiltin && op.Aliases > 0 {
+		backing[0] = "text/html"
 	}
 	backing[op.Aliases], backing[op.Aliases+1] = "<spare0>", "<spare1>"
 	aliases := backing[:op.Aliases:len(backing)]
